@@ -537,6 +537,9 @@ def main():
     for kind in (("discrete", "box")):
         with ck.section(f"onpolicy.{kind}"):
             check_onpolicy_lanes(ck, kind)
+    # more steps than environments (with E == S a reshape and a transposition of the two leading axes coincide)
+    with ck.section("onpolicy.discrete.E=2,S=3"):
+        check_onpolicy_lanes(ck, "discrete", E=2, S_=3)
     for kind in (("discrete", "box") if ck.thorough else ("box",)):
         with ck.section(f"offpolicy.{kind}"):
             check_offpolicy_lanes(ck, kind)
